@@ -447,6 +447,13 @@ class ExprMixin:
             return a.py == b.py and a.tag == b.tag
         if isinstance(a, VCallable) and isinstance(b, VCallable):
             return a.kind == b.kind and a.__dict__ == b.__dict__
+        if isinstance(a, (VSeq, VView, VInt)) and isinstance(b, (VSeq, VView, VInt)) and \
+                isinstance(a, VInt) == isinstance(b, VInt):
+            # identity of two immutable values (str, int, tuple) is an implementation detail of the interpreter (interning,
+            # small-int cache): modelled as an UNSPECIFIED boolean that can only be true for equal values
+            r = self.fresh_bool('is')
+            self.assume(z3.Implies(r, self.veq(a, b, node_eq=False)))
+            return r
         if type(a) is not type(b):
             return False
         raise Unsupported(f"identity of {a!r} and {b!r}")
